@@ -514,3 +514,58 @@ F('c12-delete-unmatched', {'C12': ['R12.3']}, [('trashcli/rm/rm_cmd.py',
   'deletion not guarded by the match')
 F('c12-selection-inverted', {'C12': ['R12.2']}, [(FILTER, "subject = original_location if self.pattern[0] == '/' else basename", "subject = basename if self.pattern[0] == '/' else original_location")], 'selection inverted')
 S('c12-startswith', ['C12'], [(FILTER, "self.pattern[0] == '/'", "self.pattern.startswith('/')")], 'startswith form')
+
+# ------------------------------------------------------------------ C02 / C13
+SORTM = 'trashcli/restore/sort_method.py'
+RASK = 'trashcli/restore/restore_asking_the_user.py'
+TFILE = 'trashcli/restore/trashed_file.py'
+HANDLER = 'trashcli/restore/handler.py'
+F('fix3-registry-class', {'C02': ['R02.1'], 'C13': ['R13.3']}, [(SORTM,
+  "        Sort.DoNot: NoSorter(),", "        Sort.DoNot: NoSorter,")], 'registry holds the class again')
+F('fix3-generator-returned', {'C13': ['R13.3'], 'C02': ['R02.1']}, [(SORTM,
+  "        return list(trashed_files)\n", "        return trashed_files\n")], 'NoSorter returns the generator')
+F('c02-registry-not-total', {'C02': ['R02.1']}, [(SORTM, "        Sort.DoNot: NoSorter(),\n", "")],
+  'no sorter for Sort.DoNot')
+F('c02-no-mkdirs', {'C02': ['R02.2']}, [(RESTORER,
+  "            parent = os.path.dirname(trashed_file.original_location)\n            self.write_fs.mkdirs(parent)\n",
+  "            pass\n")], 'missing parents are not recreated')
+F('c02-own-trash-path', {'C02': ['R02.3']}, [('trashcli/restore/trash_directories.py',
+  "            for path1, volume1 in volume_trash_dir2(volume, self.uid):\n                yield path1, volume1",
+  "            import os\n            yield os.path.join(volume, '.Trash_%s' % self.uid), volume")],
+  'restore builds its own .Trash path (different from put)')
+F('c02-reader-base-dirname', {'C02': ['R02.4'], 'C20': ['R20.3']}, [('trashcli/restore/trashed_files.py',
+  "                    original_location = parse_original_location(contents,\n                                                                info_file.volume)",
+  "                    import os\n                    original_location = parse_original_location(contents,\n                                                                os.path.dirname(os.path.dirname(os.path.dirname(info_file.path))))")],
+  'restore resolves relative paths against the parent of the trash directory')
+F('c13-bare-prefix', {'C13': ['R13.2']}, [(TFILE, "self.original_location.startswith(path + os.path.sep)", "self.original_location.startswith(path)")],
+  'scope test is a bare prefix test')
+F('c13-enumerate-1', {'C13': ['R13.3']}, [(HANDLER, "enumerate(trashed_files)", "enumerate(trashed_files, 1)")], 'numbering from 1')
+F('c13-validate-inside', {'C13': ['R13.1']}, [(RASK,
+  """        file_to_restore = [input_read.trashed_files[index] for index in
+                           sequences.all_indexes()]""",
+  """        file_to_restore = [input_read.trashed_files[index] for index in
+                           Sequences([Single(int(x)) for x in input_read.user_input.split(',') if x.isdigit()]).all_indexes()]""")],
+  'selection re-parses the reply instead of using the validated indexes')
+F('c13-no-range-check', {'C13': ['R13.1']}, [(RASK,
+  """    for index in result.all_indexes():
+        if not index in acceptable_values:
+            raise InvalidEntry(
+                "out of range %s..%s: %s" %
+                (acceptable_values[0], acceptable_values[-1], index))
+""", "")], 'range validation removed')
+F('c13-restore-while-validating', {'C13': ['R13.1']}, [(RASK,
+  "        sequences = parse_indexes(input_read.user_input,\n                                  len(input_read.trashed_files))\n",
+  "        sequences = parse_indexes(input_read.user_input,\n                                  len(input_read.trashed_files) + 1)\n")],
+  'acceptance range is one too long')
+F('c13-empty-reply-restores-all', {'C13': ['R13.4']}, [(RASK,
+  '            if user_input == "":\n                return Left(Exiting("No files were restored"))\n            else:\n                return Right(\n                    InputRead(user_input, args.trashed_files, args.overwrite))',
+  '            return Right(\n                InputRead(user_input or "0", args.trashed_files, args.overwrite))')],
+  'empty reply restores entry 0')
+F('c13-invalid-entry-not-caught', {'C13': ['R13.4']}, [(RASK,
+  "    except InvalidEntry as e:\n        return Left(Die(\"Invalid entry: %s\" % e))",
+  "    except KeyError as e:\n        return Left(Die(\"Invalid entry: %s\" % e))")],
+  'invalid reply escapes')
+S('c13-sorted-copy', ['C13', 'C02'], [(SORTM,
+  "        return sorted(trashed_files, key=self.sort_func)",
+  "        result = list(trashed_files)\n        result.sort(key=self.sort_func)\n        return result")],
+  'list.sort on a copy')
